@@ -8,7 +8,7 @@
 From Coq Require Import NArith List Bool String.
 From Verif Require Import Base.Chars Base.StrX Imports.Import Imports.ImportSet Imports.Format Imports.ImportLex
                           Imports.ImportProofs Imports.ImportLexProofs Imports.ImportSetProofs
-                          Imports.FormatProofs Imports.RoundTripProofs Imports.WidthProofs.
+                          Imports.FormatProofs Imports.RoundTripProofs Imports.WidthProofs Imports.FutureProofs.
 Import ListNotations.
 
 (* generic lexer lemma: rendering a token list with separators from {runs of >= 1 spaces, backslash-newline,
@@ -76,6 +76,16 @@ Print Assumptions C11_from_split_split.
 Theorem C11_from_imports_wf : forall b l, Forall wf_import l -> wf_set (from_imports b l).
 Proof. exact from_imports_wf. Qed.
 Print Assumptions C11_from_imports_wf.
+
+(* valid Python also means: the `from __future__ import ...` statement(s) come first in every printed block
+   (ast.parse does not see a late __future__ import, the compiler rejects it).  For all sets and params. *)
+Theorem C11_future_first_in_block : forall P S out, print_set P S = Some out ->
+  exists col fut rest,
+    get_statements (separate_from_imports P) S = fut ++ rest /\
+    Forall is_future_stmt fut /\ Forall (fun st => ~ is_future_stmt st) rest /\
+    out = concat (map (pp P col) fut) ++ concat (map (pp P col) rest).
+Proof. exact future_first_in_block. Qed.
+Print Assumptions C11_future_first_in_block.
 
 (* width.  The literal clause of the property
      forall P S out l, print_set P S = Some out -> In l (lines_of out) -> length l > width_of P -> alias_tokens_on l = 1
